@@ -316,7 +316,7 @@ class RF24:
         if not self.dynamic_payloads:
             pl_width = self.payload_length
             if len(buf) < pl_width:
-                buf += b"\0" * (pl_width - len(buf))
+                buf = buf + b"\0" * (pl_width - len(buf))
             elif len(buf) > pl_width:
                 buf = buf[:pl_width]
         self._reg_write_bytes(0xA0 | (bool(ask_no_ack) << 4), buf)
